@@ -156,6 +156,27 @@ def main():
                 f.write(text)
         status['modules'][mod] = {'items': ok, 'changed': changed}
         status['items'] += ok
+    # the driver imports every Gen module: the same fully qualified name in two modules breaks it
+    seen = {}
+    for mod in MODULES:
+        ns = ['TantivyModel.Gen']
+        try:
+            lines = open(os.path.join(OUT, mod + '.lean'), encoding='utf-8').read().splitlines()
+        except OSError:
+            continue
+        for line in lines:
+            m = re.match(r'namespace\s+(\S+)', line)
+            if m and m.group(1) != 'TantivyModel.Gen':
+                ns.append(m.group(1))
+            m = re.match(r'end\s+(\S+)', line)
+            if m and len(ns) > 1 and ns[-1] == m.group(1):
+                ns.pop()
+            m = re.match(r'(?:def|abbrev|theorem)\s+(\S+)', line)
+            if m:
+                fq = '.'.join(ns) + '.' + m.group(1)
+                if fq in seen and seen[fq] != mod:
+                    status['failures'].append({'module': mod, 'error': f'{fq} is also generated by Gen/{seen[fq]}.lean'})
+                seen[fq] = mod
     out = json.dumps(status, indent=1)
     if STATUS:
         with open(STATUS, 'w') as f:
